@@ -199,14 +199,34 @@ def run_paths(ctx, rng):
                 os.makedirs(os.path.join(d, sub), exist_ok=True)
             with open(os.path.join(d, main), "w", encoding="utf-8") as f:
                 f.write(SRC + extra)
+            # what an earlier build left behind must not matter: some targets exist already, longer than the new contents
+            # and beginning with them, equal to them, or holding something else
+            stale = {}
+            for pth, (fmt0, tname0) in expect.items():
+                how = rng.choice([None, None, "longer", "same", "junk"])
+                if how is None:
+                    continue
+                if fmt0 == "raw":
+                    cur = code
+                elif fmt0 == "bin":
+                    cur = base.to_bytes(2, "little") + len(code).to_bytes(2, "little") + code
+                else:
+                    cur = ff[fmt0](base, code, tname0.encode("bk").ljust(16, b" "))
+                data0 = {"longer": cur + b"\x03\x00tail", "same": cur, "junk": b"old contents " * 3}[how]
+                fp = os.path.join(d, os.path.normpath(pth))
+                os.makedirs(os.path.dirname(fp), exist_ok=True)
+                with open(fp, "wb") as f:
+                    f.write(data0)
+                stale[os.path.normpath(pth)] = how
+                ctx.count("targets that existed before the run (%s)" % how)
             before = impl.snapshot_dir(d)
             res = impl.run_cli([main] + argv, cwd=d)
             after = impl.snapshot_dir(d)
-            new = {k: v for k, v in after.items() if before.get(k) != v}
+            new = {k: v for k, v in after.items() if before.get(k) != v or k in stale}
             key = (main, extra, tuple(argv))
             ctx.case(key)
             ctx.count("path-cases")
-            inp = {"main": main, "source": SRC + extra, "argv": [main] + argv}
+            inp = {"main": main, "source": SRC + extra, "argv": [main] + argv, "targets_existing_before": stale}
             if res.exit != 0:
                 ctx.violation("a run with only valid input failed", inp, expected="exit 0", observed={"exit": res.exit, "stderr": res.stderr[-300:], "exc": res.exc})
                 continue
